@@ -87,9 +87,13 @@ Fixpoint judge_versions (eptags : list (str * list str)) (cfg : list str)
                    end) (combine acc f) in
       (match o with
        | DPanic =>
-           (* only a method OpenAPI has no slot for may do that *)
-           if forallb (fun d : decl N => openapi_method (str_upper (e_method (snd d)))) acc
-           then V_VIOLATION else V_AGREE
+           (* only a PUBLISHED endpoint SERVED at v whose method OpenAPI has no slot for
+              may do that (the model's DocPanic); an unpublished one, or one outside
+              its version range, must not disturb the document *)
+           match doc N ncmp r v with
+           | DocPanic => V_AGREE
+           | DocOk _ => V_VIOLATION
+           end
        | DObs ops refs keys tags optags same_perm same_twice =>
            if negb (same_ops ops (spec_ops acc v) && forallb (fun x => mem_str x keys) refs
                     && same_perm && same_twice && served_ok)
